@@ -13,6 +13,7 @@ use std::collections::HashSet;
 use std::panic::{catch_unwind, AssertUnwindSafe};
 
 mod asyncr;
+mod asyncs;
 
 fn class_of(n: u64) -> TagClass {
     match n {
